@@ -69,51 +69,110 @@ def check(ck, tier):
                             if len(vals) != len(n["args"]):
                                 vals = None
                 oneof[name] = vals
-    # ---- casts to enum in the parse functions
+    # ---- integers that become enum values in the parse functions: decided by interpreting each parse function with one integer
+    # option at a time set to -2..9 (all others at an admissible default): whatever the validation looks like (a chain of ==,
+    # a range test, a switch, a helper), a value that is not an enumerator must never reach a conversion to the enum type, and
+    # every enumerator must be accepted.
+    from . import conc as _conc, tab_ops as _tab
+    from .conc import ConcDomain, TOP
+    from .interp import Cell, Obj
+
+    class OptInt(int):
+        pass
+
+    class ParseDomain(ConcDomain):
+        def __init__(self, prog_, opts, choices=()):
+            ConcDomain.__init__(self, prog_, choices)
+            self.opts, self.casts, self.asked = opts, [], []
+            self.top_policy = "fork"      # get<double>() results are arbitrary: both outcomes of every test on them
+
+        def cast(self, v, t, e, fr):
+            t0 = t.replace("const ", "").strip()
+            if t0 in self.prog.enums:
+                self.casts.append((t0, int(v) if isinstance(v, int) else v, getattr(v, "opt", None), ir.locstr(e)))
+                return v
+            if isinstance(v, OptInt) and t0 == "int":
+                return v
+            return ConcDomain.cast(self, v, t, e, fr)
+
+        def copy_value(self, v, t):
+            return v if isinstance(v, OptInt) else ConcDomain.copy_value(self, v, t)
+
+        def global_var(self, e, fr):
+            if "nullopt" in (e.get("qn") or e.get("name") or ""):
+                return None
+            return ConcDomain.global_var(self, e, fr)
+
+        def call(self, e, fr):
+            cal = e.get("callee") or e.get("ctor") or ""
+            if "cmdline::parser::get<" in cal and e["args"]:
+                a = e["args"][0]
+                name = a.get("v") if a.get("k") == "Str" else (a["args"][0].get("v") if a.get("args") else None)
+                if "get<int>" in cal or "get<bool>" in cal:
+                    self.asked.append(name)
+                    v = OptInt(self.opts.get(name, self.defaults.get(name, 0)))
+                    v.opt = name
+                    return v
+                if "get<double>" in cal or "get<float>" in cal:
+                    return TOP
+                return "option:%s" % name
+            if "cmdline::parser::exist" in cal:
+                return False
+            if cal.startswith("GMGPolar::selectTestCase"):
+                return None
+            if e["k"] == "Construct" and (e.get("t") or "").replace("const ", "").startswith("std::optional<"):
+                return self.interp.rvalue(e["args"][0], fr) if e["args"] else None
+            return ConcDomain.call(self, e, fr)
+
+    defaults = {name: (vals[0] if vals else 0) for name, vals in oneof.items() if name}
+    ParseDomain.defaults = defaults
+
+    def run_parse(fn, opts):
+        def body(dom, it):
+            gm = Obj("GMGPolar")
+            gm.f["parser_"] = Cell(Obj("cmdline::parser"), "parser_")
+            _tab.default_other_members(dom, gm, "GMGPolar")
+            it.call_function(fn, gm, [])
+        return list(_conc.run_all(lambda ch: ParseDomain(prog, opts, ch), body, max_paths=400))
+
     n_casts = 0
     for qn in PARSE_FNS:
         fn = prog.fn(qn)
-        for s, guards in structq.stmts_with_guards(fn["body"]):
-            for e in structq.exprs_of_stmt(s):
-                for n in ir.walk(e):
-                    if n.get("k") == "Cast" and enum_of_type(prog, n["t"]) and n["e"].get("k") == "Ref":
-                        en = enum_of_type(prog, n["t"])
-                        var = n["e"]
-                        n_casts += 1
-                        key = "%s<-%s" % (en, var["name"])
-                        ck.instance("R-C20-2", key)
-                        enumerators = dict(prog.enum(en)["enumerators"])
-                        probs = []
-                        g = [gd for gd in guards if gd[1] is True]
-                        admitted = None
-                        gif = None
-                        for cond, pol, ifn in g:
-                            ds = [eq_enum(d) for d in disjuncts(cond)]
-                            if all(d and d[0] == var["id"] and d[1] == en for d in ds):
-                                admitted = set(d[2] for d in ds)
-                                gif = ifn
-                        if admitted is None:
-                            probs.append("static_cast<%s>(%s) is not dominated by a test of %s against the enumerators" % (en, var["name"], var["name"]))
-                        else:
-                            if admitted != set(enumerators):
-                                probs.append("the validity test admits {%s} but %s has {%s}" % (", ".join(sorted(admitted)), en, ", ".join(sorted(enumerators))))
-                            if not gif.get("e") or not throws(gif["e"]):
-                                probs.append("an invalid value of %s is not rejected with an exception" % var["name"])
-                        opt = optvar.get(var["id"])
-                        if opt is None:
-                            probs.append("cannot tie %s to a command-line option" % var["name"])
-                        else:
-                            lst = oneof.get(opt)
-                            if lst is None:
-                                probs.append("option '%s' has no cmdline::oneof list" % opt)
-                            elif set(lst) != set(enumerators.values()):
-                                probs.append("option '%s' accepts %s on the command line but %s has values %s" % (opt, sorted(lst), en, sorted(enumerators.values())))
-                        if probs:
-                            ck.violation("R-C20-2", "parser:%s" % en, ir.locstr(n), "; ".join(probs))
-                        else:
-                            ck.ok("R-C20-2", key, sample={"option": opt, "enum": en, "values": sorted(enumerators.values())})
+        base = run_parse(fn, {})
+        if any(d.thrown for d in base):
+            raise ir.AnalysisBroken("%s rejects the default option values %s: %s" % (qn, defaults, [d.thrown.what for d in base if d.thrown][0]))
+        pairs = sorted(set((c[2], c[0]) for d in base for c in d.casts if c[2]))
+        int_opts = sorted(set(n_ for d in base for n_ in d.asked if n_))
+        for opt, en in pairs:
+            n_casts += 1
+            key = "%s<-%s" % (en, opt)
+            ck.instance("R-C20-2", key)
+            enumerators = dict(prog.enum(en)["enumerators"])
+            valid = set(enumerators.values())
+            probs = []
+            for v in range(-2, max(valid) + 4):
+                doms = run_parse(fn, {opt: v})
+                bad_casts = [c for d in doms for c in d.casts if c[0] == en and c[2] == opt and c[1] not in valid]
+                if bad_casts:
+                    probs.append("--%s %d reaches the conversion to %s at %s without being rejected (%s has the values %s)" % (opt, v, en, bad_casts[0][3], en, sorted(valid)))
+                    break
+                if v in valid and any(d.thrown for d in doms):
+                    probs.append("--%s %d (an enumerator of %s) is rejected: %s" % (opt, v, en, [d.thrown.what for d in doms if d.thrown][0][:60]))
+                    break
+                if v not in valid and not all(d.thrown for d in doms):
+                    probs.append("--%s %d is not an enumerator of %s and is not rejected with an exception" % (opt, v, en))
+                    break
+            lst = oneof.get(opt)
+            if lst is None:
+                probs.append("option '%s' has no cmdline::oneof list" % opt)
+            elif set(lst) != valid:
+                probs.append("option '%s' accepts %s on the command line but %s has values %s" % (opt, sorted(lst), en, sorted(valid)))
+            if probs:
+                ck.violation("R-C20-2", "parser:%s" % en, ir.locstr(fn), "; ".join(probs))
+            else:
+                ck.ok("R-C20-2", key, sample={"option": opt, "enum": en, "values": sorted(valid), "decided by": "interpreting %s for --%s = -2..%d" % (qn, opt, max(valid) + 3)})
     if n_casts < 9:
-        raise ir.AnalysisBroken("found %d enum casts in the parser (9 confirmed by hand)" % n_casts)
+        raise ir.AnalysisBroken("found %d (option, enum) conversions in the parser (9 confirmed by hand)" % n_casts)
     # ---- switches on enum-typed expressions
     n_sw = 0
     for qn, fns in prog.functions.items():
